@@ -182,6 +182,52 @@ func call(f func() bool) (res string) {
 	return "false"
 }
 
+// two VIEWS of one backing array, cut by the library (PopLast from the right, Tail from the left):
+// equal exactly when their elements are, wherever they start and however much storage they share
+func views[T any](r *rand.Rand, ge func(rngs) (T, string)) (a, b []T, sa, sb string) {
+	n := 1 + r.Intn(4)
+	base := make([]T, 0, n+2)
+	parts := []string{}
+	g := rngs{rand.New(rand.NewSource(r.Int63())), rand.New(rand.NewSource(r.Int63()))}
+	for i := 0; i < n; i++ {
+		e, s := ge(g)
+		base = append(base, e)
+		parts = append(parts, s)
+	}
+	cut := func(i, j int) ([]T, string) {
+		v := base
+		for k := n; k > j; k-- {
+			v = slice.PopLast(v)
+		}
+		for k := 0; k < i; k++ {
+			v = slice.Tail(v)
+		}
+		return v, sxList(append([]string{"sl"}, parts[i:j]...)...)
+	}
+	i1 := r.Intn(n + 1)
+	j1 := i1 + r.Intn(n-i1+1)
+	i2, j2 := i1, i1+r.Intn(n-i1+1) // same start, usually another length
+	if r.Intn(3) == 0 {
+		i2 = r.Intn(n + 1)
+		j2 = i2 + r.Intn(n-i2+1)
+	}
+	a, sa = cut(i1, j1)
+	b, sb = cut(i2, j2)
+	stats[fmt.Sprintf("views.samestart=%v.samelen=%v", i1 == i2, j1-i1 == j2-i2)]++
+	return
+}
+
+func emitPair(name, va, vb string, eq, neq func() bool) {
+	e, n := call(eq), call(neq)
+	fmt.Fprintf(out, "I %s\nO %s\n", sxList("eq.pair", va, vb), sxList(sxList("eq", e), sxList("neq", n)))
+	stats["type."+name]++
+	stats["result."+e]++
+	if e == "panic" || n == "panic" {
+		b, _ := json.Marshal(map[string]any{"kind": "= or <> panicked", "type": name, "a": va, "b": vb})
+		fmt.Fprintf(out, "V %s\n", b)
+	}
+}
+
 type tcase struct {
 	name string
 	run  func(seedA, seedB, pa, pb int64) (sa, sb, eq, neq string)
@@ -236,6 +282,29 @@ func main() {
 				b, _ := json.Marshal(map[string]any{"kind": "= or <> panicked", "type": c.name, "a": va, "b": vb})
 				fmt.Fprintf(out, "V %s\n", b)
 			}
+		}
+	}
+	// values that SHARE storage (views of one array), bare and inside tuples / outer slices
+	for i := 0; i < count/2; i++ {
+		{
+			a, b, sa, sb := views(r, gInt)
+			emitPair("views []int", sa, sb, func() bool { return eqInts(a, b) }, func() bool { return neqInts(a, b) })
+			p, sp := gPoint(rngs{rand.New(rand.NewSource(r.Int63())), rand.New(rand.NewSource(1))})
+			ta, tb := frt.NewTuple3(p, a, true), frt.NewTuple3(p, b, true)
+			tx := func(sv string) string {
+				return sxList("st", "(frt.Tuple3)", sxList("E0", sp), sxList("E1", sv), sxList("E2", "(b true)"))
+			}
+			emitPair("views point*[]int*bool", tx(sa), tx(sb), func() bool { return eqTriple(ta, tb) }, func() bool { return frt.OpNotEqual(ta, tb) })
+			oa, ob := [][]int{a, b}, [][]int{b, a}
+			emitPair("views [][]int", sxList("sl", sa, sb), sxList("sl", sb, sa), func() bool { return eqIntss(oa, ob) }, func() bool { return frt.OpNotEqual(oa, ob) })
+		}
+		{
+			a, b, sa, sb := views(r, gPoint)
+			emitPair("views []point", sa, sb, func() bool { return eqPoints(a, b) }, func() bool { return frt.OpNotEqual(a, b) })
+		}
+		{
+			a, b, sa, sb := views(r, gShape)
+			emitPair("views []Shape", sa, sb, func() bool { return eqShapes(a, b) }, func() bool { return frt.OpNotEqual(a, b) })
 		}
 	}
 	// the three library paths to the empty int slice, end to end through emitted Folang code
